@@ -1,4 +1,5 @@
 from .. import common
+from .. import replay as _replay
 
 MANIFEST = {
     "text": "Lean 4 theorems over a model of ast.SortImports/sortSpecs/collapse (run splitting by line gaps, stable sort by (path, name, comment), adjacent "
@@ -25,3 +26,8 @@ def run(ctx):
         "runs longer than 12 specs: specs with equal (path, name, comment text) are observably identical in (name, path), so the unspecified order of sort.Slice is not visible",
     ]
     common.standard(ctx, "GopModel.Props.C23", "c23", 2500, 80000, RULE, driver="drv_pureb")
+
+
+def replay(ctx, obj):
+    ctx.driver_exe = "drv_pureb"
+    return _replay.generic(ctx, obj)
